@@ -36,7 +36,7 @@ func TestVerifC19(t *testing.T) {
 	dir := filepath.Join(vk.OutDir(), fmt.Sprintf("c19-%d", vk.Shard()))
 	os.MkdirAll(dir, 0o755)
 	defer os.RemoveAll(dir)
-	n := vk.N(48, 2000)
+	n := vk.N(200, 4000)
 	only := -1
 	if s := os.Getenv("VERIF_ONLY_CASE"); s != "" {
 		fmt.Sscan(s, &only)
@@ -52,11 +52,13 @@ func TestVerifC19(t *testing.T) {
 
 func runHistory(rep *vk.Report, idx int, path string) {
 	r := vk.RandFor(19, idx)
-	heap := idx%4 == 3
+	heap := idx%4 == 3 || idx%4 == 2 && idx%3 == 0
 	magicData := idx%4 == 1 // a row whose value contains the byte pattern that starts a state record
 	var real *dbhist.Real
 	if heap {
-		real = dbhist.CreateHeapReal(time.Hour)
+		chunk := []int{8 * 1024, 16 * 1024, 8 * 1024, 32 * 1024, 64 * 1024}[r.IntN(5)]
+		real = dbhist.CreateHeapRealChunk(time.Hour, chunk)
+		rep.Count(fmt.Sprintf("heap_histories_chunk_%dk", chunk/1024), 1)
 	} else {
 		os.Remove(path)
 		var err error
